@@ -1507,6 +1507,94 @@ def run_unstorable(case):
     return viol, cnt
 
 
+def stacked_case(rng, prop):
+    """a klepto cache applied to a function that is already memoized by klepto - directly (a small fast cache in front
+    of an archived one) or through a functools.wraps wrapper around it.  The outer function is a decorated function like
+    any other: its info()/key()/lookup()/__cache__() are about *its* calls and *its* cache."""
+    flat = [k for k in gen.keymap_cfgs() if k['flat'] and not k.get('outer')]
+    case = {'stacked': True, 'prop': prop, 'via': rng.choice(['direct', 'wraps', 'wraps-plain']),
+            'outer': {'algo': rng.choice(['inf', 'lru', 'lfu', 'mru', 'rr']), 'safe': rng.random() < 0.3, 'keymap': rng.choice(flat)},
+            'inner': {'algo': rng.choice(['inf', 'lru', 'lfu', 'mru', 'rr', 'no']), 'safe': rng.random() < 0.3,
+                      'keymap': rng.choice(flat), 'maxsize': rng.choice([1, 3, 1000])},
+            'calls': [rng.randrange(6) for _ in range(rng.choice([8, 16, 30]))]}
+    return run_stacked(case)
+
+
+def run_stacked(case):
+    import functools
+    viol = []
+    prop = case['prop']
+
+    def bad(kind, msg, n):
+        viol.append({'property': prop, 'kind': kind, 'mech': [], 'case': case, 'step': n, 'msg': msg})
+
+    def deco(c, maxsize):
+        mod = klepto.safe if c['safe'] else klepto
+        kw = {'keymap': gen.build_keymap(klepto, c['keymap'])}
+        if c['algo'] not in ('inf', 'no'):
+            kw['maxsize'] = maxsize
+        return getattr(mod, c['algo'] + '_cache')(**kw)
+    log = []
+
+    def body(x):
+        log.append(x)
+        return ('R', x)
+    if case['via'] == 'wraps-plain':
+        inner = None                      # control: a wraps-wrapper around an undecorated function
+        base = body
+    else:
+        inner = deco(case['inner'], case['inner']['maxsize'])(body)
+        base = inner
+    if case['via'] == 'direct':
+        target = base
+    else:
+        @functools.wraps(base)
+        def target(*a, **k):
+            return base(*a, **k)
+    outer = deco(case['outer'], 1000)(target)
+    name = '%s%s_cache over %s' % ('safe.' if case['outer']['safe'] else '', case['outer']['algo'],
+                                   {'direct': 'a klepto-cached function', 'wraps': 'a functools.wraps wrapper of a klepto-cached function',
+                                    'wraps-plain': 'a functools.wraps wrapper of a plain function'}[case['via']])
+    if inner is not None:
+        for attr in ('info', 'key', 'lookup', '__cache__', 'clear', 'load', 'dump'):
+            if getattr(outer, attr, None) is getattr(inner, attr, None):
+                bad('outer-interface-is-the-inner-functions', '%s: outer.%s is the inner function\'s %s - it reports on / acts on '
+                    'the inner cache, not on the calls made through the outer function' % (name, attr, attr), -1)
+                return viol
+    seen = set()
+    for n, x in enumerate(case['calls']):
+        i0 = tuple(outer.info())
+        r = outer(x)
+        i1 = tuple(outer.info())
+        if r != ('R', x):
+            return viol          # (colliding keys would be another subject)
+        want = (1, 0, 0) if x in seen else (0, 1, 0)
+        seen.add(x)
+        d = tuple(i1[j] - i0[j] for j in range(3))
+        if prop == 'C15':
+            if d != want:
+                bad('stacked-counter-delta', '%s: call %d (x=%r, %s through the outer function) moved the outer info() by %r, '
+                    'expected %r' % (name, n, x, 'seen before' if want[0] else 'new', d, want), n)
+                return viol
+            if i1[4] != len(seen):
+                bad('stacked-size', '%s: outer info().size=%r after %d distinct calls (nothing evicted)' % (name, i1[4], len(seen)), n)
+                return viol
+        else:
+            c = outer.__cache__()
+            try:
+                k = outer.key(x)
+                ok = k in c and c[k] == r and outer.lookup(x) == r
+            except Exception as e:
+                ok = False
+                k = 'raised %s' % type(e).__name__
+            if not ok or len(c) != len(seen):
+                bad('stacked-key-lookup-incoherent', '%s: after outer(%r) the outer key()/lookup()/__cache__() do not describe the '
+                    'entry the call created (key %s; cache holds %d entries, %d distinct calls made)'
+                    % (name, x, srepr(k)[:80], len(c), len(seen)), n)
+                return viol
+    return viol
+
+
 def directed_cases(prop):
     """hand-written witnesses of the recorded findings (same runner, same monitors): they keep the
     KNOWN-FINDING lines on every run and simply pass once a defect is repaired"""
@@ -1551,6 +1639,13 @@ def run_shard(prop, tier, seed, shard, nshards, opts):
             viol = sibling_stats_case(rng)
             res['cases'] += 1
             res['counters']['c15_sibling_function_cases'] = res['counters'].get('c15_sibling_function_cases', 0) + 1
+            res['violations'].extend(viol[:3])
+            i += nshards
+            continue
+        if prop in ('C15', 'C18') and i % 16 == 11:
+            viol = stacked_case(rng, prop)
+            res['cases'] += 1
+            res['counters']['stacked_decorator_cases'] = res['counters'].get('stacked_decorator_cases', 0) + 1
             res['violations'].extend(viol[:3])
             i += nshards
             continue
@@ -1606,6 +1701,8 @@ def replay(v, prop):
         return run_sibling(case)
     if case.get('unstorable'):
         return run_unstorable(case)[0]
+    if case.get('stacked'):
+        return run_stacked(case)
     if case.get('rec'):
         from kv import recmon
         r, viol = recmon.run_case(case, prop)
